@@ -351,8 +351,33 @@ def run_stale(c):
     return None if err <= RTOL else f"element differs rel={err:.3g} from the never-evaluated twin after {c['muts']}"
 
 
+def run_big(c):
+    """calls whose internal row count passes the sizes at which an implementation would start to work in blocks (1e6 rows,
+    2^19 row x face pairs): several sources of one class with many observers; every row equals the source alone"""
+    import magpylib as magpy
+
+    rng = np.arange(c["nobs"], dtype=float)
+    obs = np.c_[0.9 + 0.37 * np.sin(rng * 0.618), -0.4 + 0.55 * np.cos(rng * 0.414), 0.6 + 0.5 * np.sin(rng * 0.271)] * 2.5
+    srcs = [mk(k, at=i) for i, k in enumerate(c["kinds"])]
+    fn = getattr(magpy, "get" + c["field"])
+    got = np.asarray(fn(srcs, obs))
+    for i, s_ in enumerate(srcs):
+        one = np.asarray(fn(mk(c["kinds"][i], at=i), obs))
+        sc = max(float(np.max(np.abs(one))), 1e-300)
+        err = float(np.max(np.abs(got[i] - one))) / sc
+        if not err <= 1e-9:
+            k = int(np.argmax(np.max(np.abs(got[i] - one), axis=1)))
+            return f"element differs rel={err:.3g} source={c['kinds'][i]} (entry {i}) first bad observer row {k} of {c['nobs']}"
+    tot = np.asarray(fn(srcs, obs, sumup=True))
+    if float(np.max(np.abs(tot - got.sum(axis=0)))) > 1e-9 * float(np.max(np.abs(got))):
+        return "element sumup differs from the sum of the rows"
+    return None
+
+
 def work(c):
     try:
+        if c["part"] == "big":
+            return run_big(c)
         if c["part"] == "stale":
             return run_stale(c)
         if c["part"] == "compose":
@@ -366,6 +391,11 @@ def work(c):
 
 def enumerate_cases(tier):
     cases = []
+    # large calls: 3 x 350 000 rows of one class; 2-3 meshes of equal face count x 45 000 observers (> 2^19 row-face pairs)
+    cases.append({"part": "big", "kinds": ["circ", "circ", "circ"], "nobs": 350000, "field": "H"})
+    cases.append({"part": "big", "kinds": ["cub", "cub", "cub", "cub"], "nobs": 260000, "field": "B"})
+    cases.append({"part": "big", "kinds": ["meshC", "meshC3"], "nobs": 45000, "field": "B"})
+    cases.append({"part": "big", "kinds": ["meshC4", "meshC2", "meshC"], "nobs": 30000, "field": "H"})
     maxlen = 2 if tier == "quick" else 3
     plens = [1, 2, 3]
     for n in range(1, maxlen + 1):
@@ -420,6 +450,8 @@ def enumerate_cases(tier):
 
 
 def vkey(c, r):
+    if c["part"] == "big":
+        return f"C06|big-call|{'+'.join(c['kinds'])}|{c['field']}|{r.split(' ')[0]}"
     if c["part"] == "stale":
         return f"C06|stale|{c['kind']}|{c['field']}|{'+'.join(c['muts'])}|{r.split(' ')[0]}"
     if c["part"] == "batch":
@@ -443,7 +475,7 @@ def run(tier, seed):
             continue
         viols.append({"key": vkey(c, r), "what": f"{c}: {r}", "case": c, "observed": r})
     ncomp = sum(1 for c in cases if c["part"] == "compose")
-    nontriv = sum(1 for c in cases if c["part"] in ("batch", "stale") or len(c["srcs"]) > 1 or c["srcs"][0][1] > 1)
+    nontriv = sum(1 for c in cases if c["part"] in ("batch", "stale", "big") or len(c["srcs"]) > 1 or c["srcs"][0][1] > 1)
     cov = {
         "evaluations": len(cases), "distinct_nontrivial": nontriv,
         "rule": "compose cases: all ordered source lists (with duplicates) x per-object path length x observer form x "
